@@ -31,6 +31,10 @@ def check(ctx: Ctx) -> None:
     S.r_snapshot_forget(ctx, "R13.1")
     S.r_registry_who(ctx, "R03.1")
     S.r_handoff(ctx, "R02.1")
+    # ... and ids are unique: two running tasks filed under one id overwrite each other in the registry, the second one's ending
+    # finds nothing to move, its end callback never begins and the map slot it held is never returned (shared with C11)
+    from . import naming as N
+    N.r_id_discipline(ctx, "R05.11")
 
 
 def r_star_table(ctx: Ctx, rule: str) -> None:
